@@ -120,6 +120,7 @@ type frame struct {
 	lastRange string
 	evalBlock *ssa.BasicBlock // program point at which contract expressions are being evaluated
 	curCall  *ssa.CallCommon
+	callErrs []callErr // calls that returned an error value (for propagation obligations)
 	noEsc    bool // suppress the "escaped" assumption (loop-carried locals)
 }
 
@@ -534,8 +535,25 @@ func (e *Engine) genFunction(fn *ssa.Function) (fc *fnCtx, err error) {
 			if label == "" {
 				label = fmt.Sprintf("a%d", i+1)
 			}
+			if en.Case != "" && "@case:"+en.Case != where {
+				continue
+			}
 			t := env.evalBool(en.Expr, en.Src)
 			fr.oblige(rr.st, "post", label+where, rr.instr.Pos(), t, en.Src)
+		}
+		// error propagation (C17): an error returned by a callee on the way here is not swallowed
+		if fc.c.Propagates && len(rr.results) > 0 {
+			res := fr.fn.Signature.Results()
+			if isErrorType(res.At(res.Len() - 1).Type()) {
+				reterr := rr.results[len(rr.results)-1]
+				for _, ce := range fr.callErrs {
+					if !fc.ancestors[rr.instr.Block().Index][ce.blk] {
+						continue
+					}
+					cond := implies(and(ce.reach, fmt.Sprintf("(not (= (vtag %s) 0))", ce.err)), fmt.Sprintf("(not (= (vtag %s) 0))", reterr))
+					fr.oblige(rr.st, "propagate", ce.text+where, rr.instr.Pos(), cond, "an error returned by "+ce.text+" must be returned")
+				}
+			}
 		}
 	}
 	return fc, nil
@@ -1903,3 +1921,10 @@ func (fc *fnCtx) computeAncestors(fn *ssa.Function) {
 
 // structFirstField: accessor of the first field of struct sorts (filled when sorts are built).
 var structFirstField = map[string]string{}
+
+type callErr struct {
+	text  string
+	err   string
+	reach string
+	blk   int
+}
